@@ -38,7 +38,9 @@ type RecFS struct {
 	Owner    map[string]string // mountpoint -> which RecFS instance ("generation") created it
 	// Hook is called before and after every backend call (crash points of C09).
 	Hook func(point string)
-	Gen      string
+	// OnUnmount is called when an Unmount is about to succeed, with the labels the mount was made with.
+	OnUnmount func(mountpoint string, labels map[string]string)
+	Gen       string
 }
 
 func NewRecFS(s *simrt.Sim, name string, failDen int) *RecFS {
@@ -145,6 +147,9 @@ func (f *RecFS) UnmountX(ctx context.Context, mountpoint string) error {
 	if f.fail(t, "unmount") {
 		f.rec(t, "unmount", mountpoint, false, nil)
 		return errors.New("recfs: injected unmount failure")
+	}
+	if f.OnUnmount != nil {
+		f.OnUnmount(mountpoint, f.Live[mountpoint])
 	}
 	delete(f.Live, mountpoint)
 	delete(f.Owner, mountpoint)
